@@ -52,17 +52,6 @@ Definition dec_config (x : sexp) : config :=
             cf_copyright := CNone; cf_sf_prefix := None; cf_creator := CNone |}
   end.
 
-(* constructing the configuration objects the way a caller does, then building *)
-Definition configure_and_build (tp : templates) (fc : file_contents) (cfg : config) : result (list gfile) :=
-  let pc := cf_ports cfg in
-  do _ <- mk_ids (cf_encapsulee cfg);
-  do _ <- mk_semcfg (pc_psts pc) (pc_pmts pc);
-  do _ <- mk_semcfg (pc_rsts pc) (pc_rmts pc);
-  do _ <- match pc_mc pc with Some m => do _ <- mk_ids (mcc_reply m); mc_cfg_ok m | None => Ok tt end;
-  do _ <- portscfg_ok (pc_psts pc) (pc_pmts pc);
-  do _ <- match cf_sf_prefix cfg with Some p => do _ <- mk_ids p; Ok tt | None => Ok tt end;
-  build tp fc cfg.
-
 Definition run_build2 (t : Z) (a : list sexp) : sexp :=
   match t, a with
   | 601, [tp; doc; cfg] =>
